@@ -135,7 +135,7 @@ class FaultSeam:
         self.fire_at = -1  # crossing index at which to raise (0-based); -1: only count
         self.when = "before"
         self.fired: str | None = None
-        self.observer: Callable[[str, tuple], None] | None = None  # called after a completed call
+        self.observer: Callable[[str, tuple, dict], None] | None = None  # called after a completed call
 
     def install(self) -> None:
         if self._installed:
@@ -156,7 +156,7 @@ class FaultSeam:
                     if not seam.armed:
                         r = orig(*a, **k)
                         if seam.observer is not None:
-                            seam.observer(site, a)
+                            seam.observer(site, a, k)
                         return r
                     idx = seam.count
                     seam.count += 1
@@ -165,7 +165,7 @@ class FaultSeam:
                         raise SimFault(f"injected before {site} (crossing {idx})")
                     r = orig(*a, **k)
                     if seam.observer is not None:
-                        seam.observer(site, a)
+                        seam.observer(site, a, k)
                     if idx == seam.fire_at and seam.when == "after":
                         seam.fired = site
                         raise SimFault(f"injected after {site} (crossing {idx})")
